@@ -301,3 +301,34 @@ case("c07-twin-twist-bls-ref-style", "C07", OC_BLS, "    nx = FQ12([0] + [xcoeff
      "    nx = FQ12([xcoeffs[0]] + [0] * 5 + [xcoeffs[1]] + [0] * 5)\n    ny = FQ12([ycoeffs[0]] + [0] * 5 + [ycoeffs[1]] + [0] * 5)\n    nz = FQ12([zcoeffs[0]] + [0] * 5 + [zcoeffs[1]] + [0] * 5)\n    return (nx * w, ny, nz * w**3)", expect="silent")
 case("c07-twin-double-reassoc", "C07", RC_BN, "    newy = -m * newx + m * x - y\n", "    newy = m * (x - newx) - y\n", expect="silent")
 case("c07-twin-multiply-iterative-style", "C07", OC_BN, "    elif not n % 2:\n        return multiply(double(pt), n // 2)", "    elif n % 2 == 0:\n        return multiply(double(pt), n // 2)", expect="silent")
+
+# ---------------------------------------------------------------- C17
+case("c17-subgroup-true", "C17", G2P, "    return is_inf(multiply(P, curve_order))", "    return True")
+case("c17-subgroup-order-minus-1", "C17", G2P, "    return is_inf(multiply(P, curve_order))", "    return is_inf(multiply(P, curve_order - 1))")
+case("c17-subgroup-field-modulus", "C17", G2P, "    return is_inf(multiply(P, curve_order))", "    return is_inf(multiply(P, field_modulus))", more=[(G2P, "    curve_order,\n", "    curve_order,\n    field_modulus,\n", 1)])
+case("c17-subgroup-not", "C17", G2P, "    return is_inf(multiply(P, curve_order))", "    return not is_inf(multiply(P, curve_order))")
+case("c17-subgroup-on-P", "C17", G2P, "    return is_inf(multiply(P, curve_order))", "    return is_inf(P)")
+case("c17-heff-g1", "C17", "py_ecc/optimized_bls12_381/constants.py", "H_EFF_G1 = 0xD201000000010001", "H_EFF_G1 = 0xD201000000010000")
+case("c17-clear-g2-uses-g1", "C17", "py_ecc/optimized_bls12_381/optimized_clear_cofactor.py", "    return multiply(p, H_EFF_G2)", "    return multiply(p, H_EFF_G1)")
+case("c17-twin-local", "C17", G2P, "    return is_inf(multiply(P, curve_order))", "    Q = multiply(P, curve_order)\n    return is_inf(Q)", expect="silent")
+
+RP_BN = "py_ecc/bn128/bn128_pairing.py"
+RP_BLS = "py_ecc/bls12_381/bls12_381_pairing.py"
+# ---------------------------------------------------------------- C05
+case("c05-ref-no-oncurve-Q", "C05", RP_BN, "    if not is_on_curve(Q, b2):\n        raise ValueError(\"Invalid input - point Q is not on the correct curve\")\n", "", rule="C05.R1")
+case("c05-opt-oncurve-wrong-coeff", "C05", OPAIR, "    if not is_on_curve(Q, b2):", "    if not is_on_curve(Q, b):", rule="C05.R1")
+case("c05-opt-no-oncurve-P", "C05", OP_BN, "    if not is_on_curve(P, b):\n        raise ValueError(\"Invalid input - point P is not on the correct curves\")\n", "", rule="C05.R1")
+case("c05-opt-no-inf-shortcut", "C05", OPAIR, "    if P[-1] == (P[-1].zero()) or Q[-1] == (Q[-1].zero()):\n        return FQ12.one()\n", "", rule="C05.R2")
+case("c05-opt-inf-only-P", "C05", OP_BN, "    if P[-1] == (P[-1].zero()) or Q[-1] == (Q[-1].zero()):", "    if P[-1] == (P[-1].zero()):", rule="C05.R2")
+case("c05-ref-miller-no-none", "C05", RP_BLS, "    if Q is None or P is None:\n        return FQ12.one()\n", "", rule="C05.R2")
+case("c05-ref-loop-bound", "C05", RP_BN, "log_ate_loop_count = 63", "log_ate_loop_count = 62", rule="C05.R3")
+case("c05-ref-line-after-update", "C05", RP_BLS, "        f = f * f * linefunc(R, R, P)\n        R = double(R)", "        R = double(R)\n        f = f * f * linefunc(R, R, P)", rule="C05.R3")
+case("c05-ref-drop-frobenius-add", "C05", RP_BN, "    f = f * linefunc(R, Q1, P)\n    R = add(R, Q1)\n", "    f = f * linefunc(R, Q1, P)\n", rule="C05.R3")
+case("c05-ref-final-exponent", "C05", RP_BN, "    return f ** ((field_modulus**12 - 1) // curve_order)\n\n\n# Pairing computation", "    return f ** ((field_modulus**12 - 1) // (curve_order - 1))\n\n\n# Pairing computation", rule="C05.R3")
+case("c05-opt-den-not-squared", "C05", OPAIR, "        f_den = f_den * f_den * _d\n", "        f_den = f_den * _d\n", rule="C05.R3")
+case("c05-opt-add-wrong-point", "C05", OP_BN, "            _n, _d = linefunc(R, nQ, P)\n            f_num = f_num * _n\n            f_den = f_den * _d\n            R = add(R, nQ)", "            _n, _d = linefunc(R, nQ, P)\n            f_num = f_num * _n\n            f_den = f_den * _d\n            R = add(R, Q)", rule="C05.R3")
+case("c05-opt-bls-loop-slice", "C05", OPAIR, "    for v in pseudo_binary_encoding[62::-1]:", "    for v in pseudo_binary_encoding[63::-1]:", rule="C05.R3")
+case("c05-opt-nq2-sign", "C05", OP_BN, "    nQ2 = (Q1[0] ** field_modulus, -Q1[1] ** field_modulus, Q1[2] ** field_modulus)", "    nQ2 = (Q1[0] ** field_modulus, Q1[1] ** field_modulus, Q1[2] ** field_modulus)", rule="C05.R3")
+case("c05-opt-line-untwisted", "C05", OPAIR, "            _n, _d = linefunc(twist_R, twist_Q, cast_P)", "            _n, _d = linefunc(twist_R, twist(R), cast_P)", rule="C05.R3")
+case("c05-ate-count-ref", "C05", RP_BLS, "ate_loop_count = 15132376222941642752", "ate_loop_count = 15132376222941642753")
+case("c05-twin-f-reassoc", "C05", RP_BN, "        f = f * f * linefunc(R, R, P)\n", "        l = linefunc(R, R, P)\n        f = l * (f * f)\n", expect="silent")
